@@ -11,7 +11,13 @@ vars == <<l, table, store, uv, pend>>
 Init == TLCSet(1, 1) /\ l = 1 /\ table = CEmpty /\ store = <<>> /\ uv = TRUE /\ pend = <<>>
 Ev(e) == l <= Len(Rec) /\ Rec[l].ev = e /\ l' = l + 1
 TReset == Ev("reset") /\ pend = <<>> /\ table' = CEmpty /\ store' = <<>> /\ uv' = Rec[l].uv /\ pend' = <<>>
-TInv == Ev("inv") /\ LET e == Rec[l] IN pend' = [t \in (DOMAIN pend) \cup {e.t} |-> IF t = e.t THEN [op |-> e, done |-> FALSE, r |-> <<>>] ELSE pend[t]]
+\* clear_layer is DashMap::clear: the shards are emptied one after the other, each under its own lock, so the layer is NOT cleared
+\* atomically -- every key of the layer is removed at its own instant between the invocation and the response (C18 asks for
+\* atomicity of the operations on one key; the solvers never clear a layer that is still being written)
+StKeys == {Rec[i].st : i \in {j \in DOMAIN Rec : Rec[j].ev = "inv" /\ Rec[j].op \in {"cupd", "cget"}}}
+CClearKey(t, d, k) == [j \in (DOMAIN t) \ {<<d, k>>} |-> t[j]]
+TInv == Ev("inv") /\ LET e == Rec[l]  isClear == e.op = "cclear_layer" IN
+           pend' = [t \in (DOMAIN pend) \cup {e.t} |-> IF t = e.t THEN [op |-> e, done |-> isClear /\ StKeys = {}, r |-> <<>>, left |-> IF isClear THEN StKeys ELSE {}] ELSE pend[t]]
         /\ UNCHANGED <<table, store, uv>>
 \* result shapes: cache get -> <<value, explored>> ; cache upd -> <<>> ; dominance query -> <<dominated, threshold-sound>>
 Lin == /\ l <= Len(Rec) /\ Rec[l].ev = "res"                       \* only useful right before a response is due
@@ -21,7 +27,9 @@ Lin == /\ l <= Len(Rec) /\ Rec[l].ev = "res"                       \* only usefu
                                       /\ pend' = [pend EXCEPT ![t].done = TRUE]
                   [] o.op = "cget" -> /\ table' = table /\ store' = store
                                       /\ pend' = [pend EXCEPT ![t].done = TRUE, ![t].r = CGet(table, o.depth, o.st)]
-                  [] o.op = "cclear_layer" -> /\ table' = CClearLayer(table, o.depth) /\ store' = store /\ pend' = [pend EXCEPT ![t].done = TRUE]
+                  [] o.op = "cclear_layer" -> \E k \in pend[t].left :
+                                      /\ table' = CClearKey(table, o.depth, k) /\ store' = store
+                                      /\ pend' = [pend EXCEPT ![t].left = @ \ {k}, ![t].done = (pend[t].left = {k})]
                   [] o.op = "dquery" -> LET front == DFront(store, o.depth, o.key)  dom == IsDominated(front, o.c, o.value, uv) IN
                                         /\ store' = (IF dom THEN store ELSE DSet(store, o.depth, o.key, DInsert(front, o.c, o.value, uv)))
                                         /\ table' = table
